@@ -1,4 +1,4 @@
-import DimodProofs.CqmSubst
+import DimodProofs.CqmLiftViews
 
 /-! # C05 — a CQM keeps every expression attached to the right variables
 
@@ -111,7 +111,8 @@ theorem remove_refines (m m' : Cqm) (hwf : CqmWF m) (hnd : m.labels.Nodup) (v : 
 
 /-- After any history every neighbourhood of every expression is strictly sorted by local index — what
     `std::lower_bound` in `asymmetric_quadratic_ref` and the early `break` of `abc::energy` rely on. -/
-theorem history_sorted (ops : List Cqm.Op) : AllExprs ExprSorted (({} : Cqm).run ops) := run_sorted ops
+theorem history_sorted (ops : List Cqm.Op) (hops : ∀ op ∈ ops, OpOK op) : AllExprs ExprSorted (({} : Cqm).run ops) :=
+  run_sorted ops hops
 
 /-- `cqm_step_refines`, term insertion: terms written into an expression land on the right variables.
     `add_linear(g, b)` adds `b` to the bias of `g` and to nothing else, appending `g` to the private order iff
@@ -119,10 +120,8 @@ theorem history_sorted (ops : List Cqm.Op) : AllExprs ExprSorted (({} : Cqm).run
     either side — and to no other pair.
     `add_quadratic(g, g, b)` puts `b` on the linear bias of a BINARY `g` (x·x = x), on the offset for a SPIN `g`
     (x·x = 1), on the diagonal entry otherwise — and nowhere else.
-    **Partial**: the statements here and in `substitute_is_substitution` / `copy_eq_move` are on indices; only
-    `remove_refines` is lifted to the label-keyed polynomials.  For all operations
-    `cqm_inv_preserved` proves that the representation invariant survives, and the harness compares every term after
-    every operation with the list-of-polynomials reference. -/
+    These are the index-level statements; `cqm_step_refines` and its companions below lift them (and the other
+    operations) to the label-keyed polynomials. -/
 theorem cqm_step_refines_partial (e : Expr) (hwf : ExprWF e) (hs : ExprSorted e) (vt : List VT4) (g gu gv : Nat)
     (hne : gu ≠ gv) (b : Rat) :
     (∀ k, (e.addLinear g b).linear k = if k = g then e.linear g + b else e.linear k)
@@ -201,6 +200,181 @@ theorem substitute_is_substitution {n : Nat} (q : QB) (hq : QBOk n q) (hs : AdjS
   rw [hflag]
   exact substitute_coeffs hq hs hv m c
 
+/-! ## `cqm_step_refines`: every step as an operation on the plain list of label-keyed polynomials
+
+`absCqm m : LCqm` forgets every index: the variable labels in order, type and bounds *by label*, the objective and each
+constraint (keyed by its label, in order) as `LPoly` — coefficient functions on labels plus the private variable order —
+with sense, rhs, weight, penalty type and discrete mark.  Each theorem below says: if the call returns (no exception), the new
+`absCqm` is the old one changed by the *specification* operation, which is written without any index
+(`LPoly.addLinear`, `LPoly.addQuadratic`, `LPoly.substitute`, `LPoly.drop`, `LCqm.modView` "apply to the objective or to
+the constraint labelled l and to nothing else", `LCqm.mapPolys`, `LCqm.removeVariable`, …).  The hypotheses — `CqmWF`,
+distinct labels, `ExprKS` (a neighbourhood entry (i, j) has its mirror (j, i)), sorted neighbourhoods — hold at every
+point of every history: `history_inv`, `history_labels`, `history_keysym`, `history_sorted`. -/
+
+/-- After any history every stored interaction has its mirror entry (what `remove_interaction` and
+    `substitute_variable` rely on when they walk one neighbourhood and patch the other). -/
+theorem history_keysym (ops : List Cqm.Op) (hops : ∀ op ∈ ops, OpOK op) : AllExprs ExprKS (({} : Cqm).run ops) :=
+  run_keySym ops hops
+
+/-- **Mutation through the objective / constraint views** (`w = none`: `cqm.objective`, `w = some l`:
+    `cqm.constraints[l].lhs`): `add_linear`, `set_linear`, `add_quadratic` (the view rejects a self-loop on a SPIN / BINARY
+    variable and any REAL variable — then there is no step; an INTEGER self-loop goes on the diagonal), `remove_interaction`, `remove_variable`, `offset =` change that one polynomial as the
+    specification says — on the labels named — and nothing else in the model;
+    `mark_discrete` / `set_weight` change that attribute of that constraint only. -/
+theorem cqm_step_refines (m m' : Cqm) (hwf : CqmWF m) (hl : CqmLabelsOK m) (hk : AllExprs ExprKS m)
+    (hs : AllExprs ExprSorted m) :
+    (∀ w v b, m.step (.viewAddLinear w v b) = (m', none) → absCqm m' = (absCqm m).modView w (·.addLinear v b))
+    ∧ (∀ w v b, m.step (.viewSetLinear w v b) = (m', none) → absCqm m' = (absCqm m).modView w (·.setLinear v b))
+    ∧ (∀ w u v b, m.step (.viewAddQuadratic w u v b) = (m', none) →
+          absCqm m' = (absCqm m).modView w (·.addQuadratic ((absCqm m).vtOf u) u v b))
+    ∧ (∀ w u v, m.step (.viewRemoveInteraction w u v) = (m', none) →
+          absCqm m' = (absCqm m).modView w (·.removeInteraction u v))
+    ∧ (∀ w v, m.step (.viewRemoveVariable w v) = (m', none) → absCqm m' = (absCqm m).modView w (·.drop v))
+    ∧ (∀ w b, m.step (.viewSetOffset w b) = (m', none) → absCqm m' = (absCqm m).modView w (·.setOffset b))
+    ∧ (∀ l mark, m.step (.viewMarkDiscrete l mark) = (m', none) →
+          absCqm m' = (absCqm m).modAttr l (fun c => { c with discrete := mark }))
+    ∧ (∀ l weight pen, m.step (.viewSetWeight l weight pen) = (m', none) →
+          absCqm m' = (absCqm m).modAttr l (fun c => { c with weight := weight, quadPenalty := decide (pen = 1) })) :=
+  ⟨fun w v b h => refines_viewAddLinear hwf hl w v b h, fun w v b h => refines_viewSetLinear hwf hl w v b h,
+   fun w u v b h => refines_viewAddQuadratic hwf hl hs w u v b h, fun w u v h => refines_viewRemoveInteraction hl hk w u v h,
+   fun w v h => refines_viewRemoveVariable hwf hl w v h, fun w b h => refines_viewSetOffset hl w b h,
+   fun l mark h => refines_viewMarkDiscrete hl l mark h, fun l weight pen h => refines_viewSetWeight hl l weight pen h⟩
+
+/-- **Building from iterables, removing constraints, adding variables.**
+    `set_objective(iterable)`: the objective becomes the sum of the terms (added one by one to the zero polynomial, a
+    term `(u, u, b)` folded by the type of `u`), nothing else changes.  `add_constraint(iterable, sense, rhs, label)`
+    (hard): one more constraint at the end with that label, sense, rhs, no weight, not discrete, whose polynomial is the
+    sum of the terms.  `remove_constraint(label)` without cascade: that constraint goes.  `add_variable`: either the label
+    existed and nothing changes, or it is appended with the type and bounds, and no polynomial or attribute changes. -/
+theorem cqm_step_refines_build (m m' : Cqm) (hwf : CqmWF m) (hl : CqmLabelsOK m) :
+    (∀ ts, m.step (.setObjectiveTerms ts) = (m', none) →
+        absCqm m' = { absCqm m with obj := ts.foldl (LPoly.addTerm (absCqm m).vtOf) LPoly.empty })
+    ∧ (∀ ts sense rhs label, m.step (.addConstraintTerms ts sense rhs label none 0) = (m', none) →
+        absCqm m' = { absCqm m with cons := (absCqm m).cons ++
+          [(label, { p := ts.foldl (LPoly.addTerm (absCqm m).vtOf) LPoly.empty, sense := sense, rhs := rhs, weight := none,
+                     quadPenalty := false, discrete := false })] })
+    ∧ (∀ label, m.step (.removeConstraint label false) = (m', none) →
+        absCqm m' = { absCqm m with cons := (absCqm m).cons.filter (fun p => p.1 ≠ label) })
+    ∧ (∀ vt v lb ub, m.step (.addVariable vt v lb ub) = (m', none) →
+        m' = m ∨ ∃ l lbv ubv, l ∉ m.labels ∧ (absCqm m').labels = (absCqm m).labels ++ [l]
+          ∧ (∀ x, (absCqm m').info x = if x = l then some (vt, lbv, ubv) else (absCqm m).info x)
+          ∧ (absCqm m').obj = (absCqm m).obj ∧ (absCqm m').cons = (absCqm m).cons) :=
+  ⟨fun ts h => refines_setObjectiveTerms hwf hl ts h, fun ts sense rhs label h => refines_addConstraintTerms hwf hl ts sense rhs label h,
+   fun label h => refines_removeConstraint hl label h, fun vt v lb ub h => refines_addVariable hwf vt v lb ub h⟩
+
+/-- **`fix_variable` / `fix_variables` (in place), `flip_variable`, `change_vartype`** on the list of polynomials:
+    the substitution `x_v ↦ a·x_v + c` (`LPoly.substitute`: offset += l_v·c + q_vv·c², l_v ↦ a·l_v + 2·q_vv·a·c,
+    l_w ↦ l_w + q_vw·c, q_vv ↦ a²·q_vv, q_vw ↦ a·q_vw, every other coefficient untouched) applied to the objective and to
+    every constraint — with (a, c) = (0, value) and the variable dropped afterwards for `fix`, (−1, 0) / (−1, 1) for
+    flipping a SPIN / BINARY variable, (2, −1) / (½, ½) for SPIN→BINARY|INTEGER / BINARY→SPIN — while labels, order,
+    the other variables' types and bounds, senses, rhs, weights and penalty types stay.  (Needs the D4 repair in the
+    source: `LPoly.substitute` has the q_vv terms; see `substitute_is_substitution`.) -/
+theorem cqm_step_refines_subst (m m' : Cqm) (hwf : CqmWF m) (hl : CqmLabelsOK m) (hk : AllExprs ExprKS m)
+    (hs : AllExprs ExprSorted m) :
+    (∀ v a, m.step (.fixVariable v a) = (m', none) →
+        absCqm m' = ((absCqm m).mapPolys (·.substitute v 0 a)).removeVariable v)
+    ∧ (∀ fixed, m.step (.fixVariables fixed) = (m', none) →
+        absCqm m' = fixed.foldl (fun s p => (s.mapPolys (·.substitute p.1 0 p.2)).removeVariable p.1) (absCqm m))
+    ∧ (∀ v, m.step (.flipVariable v) = (m', none) →
+        ∃ g, m.idx? v = some g ∧
+          ((m.vt.getD g .integer = .spin ∧ absCqm m' = (absCqm m).mapPolys (·.substitute v (-1) 0))
+           ∨ (m.vt.getD g .integer = .binary ∧ m' = (m.mapExprs (·.substitute g (-1) 1)).unmarkDiscreteWith g
+              ∧ absCqm (m.mapExprs (·.substitute g (-1) 1)) = (absCqm m).mapPolys (·.substitute v (-1) 1))))
+    ∧ (∀ vt v, m.step (.changeVartype vt v) = (m', none) →
+        m' = m
+        ∨ (∃ a c t lo hi, (absCqm m').obj = ((absCqm m).mapPolys (·.substitute v a c)).obj
+            ∧ (absCqm m').cons = ((absCqm m).mapPolys (·.substitute v a c)).cons
+            ∧ (absCqm m').labels = (absCqm m).labels
+            ∧ (absCqm m').info = ((absCqm m).setInfo v (t, lo, hi)).info
+            ∧ ((a, c, t, lo, hi) = (2, -1, VT4.binary, 0, 1) ∨ (a, c, t, lo, hi) = (1/2, 1/2, VT4.spin, -1, 1)
+                ∨ (a, c, t, lo, hi) = (2, -1, VT4.integer, 0, 1)))
+        ∨ (∃ g, m.idx? v = some g ∧ m' = { m with vt := Cqm.setAt m.vt g .integer })) :=
+  ⟨fun v a h => refines_fixVariable hwf hl hk hs v a h, fun fixed h => refines_fixVariables fixed hwf hl hk hs h,
+   fun v h => refines_flipVariable hl hk hs v h, fun vt v h => refines_changeVartype hwf hl hk hs vt v h⟩
+
+/-- **`relabel_variables(mapping)`** when accepted is the renaming `renameOf mapping` (mapped labels renamed, the others
+    kept) of the variable labels on the list of polynomials: same order; for every old label its type/bounds and, in the
+    objective and every constraint, its linear bias and its quadratic biases are found under the new label, the private
+    orders are renamed elementwise, offsets stay; constraint labels, number, senses, rhs, weights, penalty types and marks
+    are untouched.  **`relabel_constraints(mapping)`** renames the constraint labels in place and touches nothing else. -/
+theorem relabel_refines (m m' : Cqm) (hwf : CqmWF m) (hnd : m.labels.Nodup) (mp : List (Label × Label)) :
+    (m.step (.relabelVariables mp) = (m', none) →
+      (absCqm m').labels = (absCqm m).labels.map (renameOf mp)
+      ∧ (∀ x ∈ m.labels, (absCqm m').info (renameOf mp x) = (absCqm m).info x)
+      ∧ (absCqm m').obj.vars = (absCqm m).obj.vars.map (renameOf mp)
+      ∧ (absCqm m').obj.off = (absCqm m).obj.off
+      ∧ (∀ x ∈ m.labels, (absCqm m').obj.lin (renameOf mp x) = (absCqm m).obj.lin x)
+      ∧ (∀ x ∈ m.labels, ∀ y ∈ m.labels, (absCqm m').obj.quad (renameOf mp x) (renameOf mp y) = (absCqm m).obj.quad x y)
+      ∧ m'.clabels = m.clabels
+      ∧ m'.cons.length = m.cons.length
+      ∧ ∀ k, k < m.cons.length →
+          (absCons m'.labels (m'.cons.getD k {})).p.vars = (absCons m.labels (m.cons.getD k {})).p.vars.map (renameOf mp)
+          ∧ (absCons m'.labels (m'.cons.getD k {})).p.off = (absCons m.labels (m.cons.getD k {})).p.off
+          ∧ (∀ x ∈ m.labels, (absCons m'.labels (m'.cons.getD k {})).p.lin (renameOf mp x)
+                = (absCons m.labels (m.cons.getD k {})).p.lin x)
+          ∧ (∀ x ∈ m.labels, ∀ y ∈ m.labels, (absCons m'.labels (m'.cons.getD k {})).p.quad (renameOf mp x) (renameOf mp y)
+                = (absCons m.labels (m.cons.getD k {})).p.quad x y)
+          ∧ attrs (m'.cons.getD k {}) = attrs (m.cons.getD k {})
+          ∧ (m'.cons.getD k {}).discrete = (m.cons.getD k {}).discrete)
+    ∧ (m.step (.relabelConstraints mp) = (m', none) →
+      (absCqm m').cons = (absCqm m).cons.map (fun p => (renameOf mp p.1, p.2))
+      ∧ (absCqm m').obj = (absCqm m).obj ∧ (absCqm m').labels = (absCqm m).labels ∧ (absCqm m').info = (absCqm m).info) := by
+  refine ⟨fun h => ?_, fun h => absCqm_relabelConstraints mp h⟩
+  obtain ⟨a1, a2, a3, a4, a5, a6, a7, a8, a9⟩ := absCqm_relabelVariables hwf hnd mp h
+  refine ⟨a1, a2, a3, a4, a5, a6, a7, a8, fun k hk => ?_⟩
+  obtain ⟨b1, b2, b3, b4, b5, b6, b7, b8, b9⟩ := a9 k hk
+  exact ⟨b1, b2, b3, b4, by unfold attrs; rw [b5, b6, b7, b8], b9⟩
+
+/-- **The copying path `fix_variables(fixed, inplace=False)` is "deep copy, then fix in place"** for everything but the
+    polynomials themselves: the model it returns (`Cqm.fixVariablesCopy`, the transcription of the C++
+    `ConstrainedQuadraticModel::fix_variables` that builds a *new* model term by term) is well formed, has the same
+    constraint labels in the same order and, constraint by constraint, the same **sense, rhs, weight and penalty type**
+    (`attrs`) as the in-place result; its discrete mark is the in-place mark restricted to constraints that are still
+    one-hot (`mark_discrete(old.marked_discrete() && new.is_onehot())`); and it keeps exactly the variables that are not
+    fixed — same labels, same order, same type and bounds as the in-place result, which exists (no exception) when the
+    labels to fix are distinct.  The polynomials of the two paths are compared by C03 (`fix_inplace_eq_copy`,
+    `cqm_fix_copy_eval`) and, term by term, by the harness. -/
+theorem fix_copy_is_copy_plus_inplace (m m' : Cqm) (hwf : CqmWF m) (hnd : m.labels.Nodup) (fixed : List (Label × Rat))
+    (hdist : (fixed.map (·.1)).Nodup) (h : m.fixVariablesCopy fixed = some m') :
+    CqmWF m'
+    ∧ (m.step (.fixVariables fixed)).2 = none
+    ∧ m'.clabels = (m.step (.fixVariables fixed)).1.clabels
+    ∧ m'.cons.map attrs = (m.step (.fixVariables fixed)).1.cons.map attrs
+    ∧ (∀ k, k < m.cons.length →
+        (m'.cons.getD k {}).discrete
+          = (((m.step (.fixVariables fixed)).1.cons.getD k {}).discrete && (m'.cons.getD k {}).isOnehot m'.vt))
+    ∧ (absCqm m').labels = (absCqm (m.step (.fixVariables fixed)).1).labels
+    ∧ (absCqm m').info = (absCqm (m.step (.fixVariables fixed)).1).info := by
+  obtain ⟨a1, a2, a3⟩ := fixCopy_eq_inplace_attrs h
+  obtain ⟨b1, b2, b3⟩ := fixCopy_eq_inplace_vars hwf hnd hdist h
+  exact ⟨fixCopy_wf hwf h, b1, a1, a2, a3, b2, b3⟩
+
+/-- …and against the *input*: the copy has the input's constraint labels, senses, rhs, weights and penalty types, keeps a
+    discrete mark iff the constraint was marked and is still one-hot, and its variables are the input's variables that are
+    not fixed, in order, each with its type and bounds. -/
+theorem fix_copy_attrs_and_vars (m m' : Cqm) (hwf : CqmWF m) (hnd : m.labels.Nodup) (fixed : List (Label × Rat))
+    (h : m.fixVariablesCopy fixed = some m') :
+    m'.clabels = m.clabels
+    ∧ m'.cons.map attrs = m.cons.map attrs
+    ∧ (∀ k, k < m.cons.length →
+        (m'.cons.getD k {}).discrete = ((m.cons.getD k {}).discrete && (m'.cons.getD k {}).isOnehot m'.vt))
+    ∧ (absCqm m').labels = (absCqm m).labels.filter (fun l => !(fixed.any (·.1 = l)))
+    ∧ (∀ x, (absCqm m').info x = if fixed.any (·.1 = x) then none else (absCqm m).info x) := by
+  obtain ⟨a1, a2, _, a4⟩ := fixCopy_attrs h
+  obtain ⟨b1, b2⟩ := fixCopy_vars hwf hnd h
+  exact ⟨a1, a2, a4, b1, b2⟩
+
+/-- The refinement statements apply at every point of every history: all four hypotheses are invariants. -/
+theorem refinement_hypotheses_hold (ops : List Cqm.Op) (hops : ∀ op ∈ ops, OpOK op) :
+    CqmWF (({} : Cqm).run ops) ∧ CqmLabelsOK (({} : Cqm).run ops)
+    ∧ AllExprs ExprKS (({} : Cqm).run ops) ∧ AllExprs ExprSorted (({} : Cqm).run ops) :=
+  ⟨history_inv ops hops, history_labels ops, history_keysym ops hops, history_sorted ops hops⟩
+
+/-! **Not lifted** (index-level statements + harness only): building from a *model* (`set_objective(model)`,
+`add_constraint(model | comparison)`, the discrete forms — `copy_eq_move` / `model_terms_carried` are on indices),
+`remove_constraint(cascade=True)`, soft `add_constraint(iterable, weight=…)`, `spin_to_binary` (an iteration of
+`change_vartype` steps), the bounds setters, and the polynomial part of the copying `fix_variables` (C03). -/
+
 /-! ## non-vacuity: a concrete history on the executable model -/
 
 /-- variables x(BINARY) i(INTEGER) y(BINARY); objective 2i + 3i² + x·y; constraint `x + i <= 1`; remove `x` -/
@@ -219,6 +393,22 @@ example : (demo.run [.removeVariable (.str "x")]).obj.vars = [0, 1]
     ∧ (demo.run [.removeVariable (.str "x")]).obj.quadratic 0 0 = 3
     ∧ (demo.run [.removeVariable (.str "x")]).labels = [.str "i", .str "y"]
     ∧ ((demo.run [.removeVariable (.str "x")]).cons.map (·.e.vars)) = [[0]] := by
+  decide +kernel
+
+/-- the refinement theorems are not vacuous: these calls return on `demo`, the copying path yields a model, and the
+    demo constraint keeps sense/rhs/weight/penalty through it -/
+example : (demo.step (.fixVariable (.str "x") 1)).2 = none ∧ (demo.step (.fixVariables [(.str "x", 1), (.str "i", 2)])).2 = none
+    ∧ (demo.step (.viewAddQuadratic (some (.str "c")) (.str "i") (.str "i") 5)).2 = none
+    ∧ (demo.step (.viewRemoveInteraction none (.str "x") (.str "y"))).2 = none
+    ∧ (demo.step (.relabelVariables [(.str "x", .str "i"), (.str "i", .str "x")])).2 = none
+    ∧ (demo.step (.relabelConstraints [(.str "c", .str "d")])).2 = none
+    ∧ (demo.step (.flipVariable (.str "y"))).2 = none ∧ (demo.step (.changeVartype .spin (.str "y"))).2 = none := by
+  decide +kernel
+example : (match demo.fixVariablesCopy [(.str "x", 1)] with
+    | some m' => decide (m'.labels = [.str "i", .str "y"]) && decide (m'.clabels = [.str "c"])
+                 && decide (m'.cons.map (fun c => (c.rhs, c.weight, c.quadPenalty, c.discrete)) = [(1, none, false, false)])
+                 && (m'.cons.map (fun c => match c.sense with | .le => true | _ => false) == [true])
+    | none => false) = true := by
   decide +kernel
 
 end C05
